@@ -73,6 +73,10 @@ def main(tier):
                      t.stdout.strip(), caught or "NOBODY (tried %s)"
                      % checks))
             sys.stdout.flush()
+            if not caught and tests_ok and meta.get("probabilistic"):
+                print("sensitivity %s: seed-dependent at the quick tier (see "
+                      "its meta.json), not counted as a miss" % name)
+                continue
             if not caught or not tests_ok:
                 missed.append(name)
     finally:
